@@ -17,7 +17,7 @@ func init() {
 			"(R5) DigestVerify has an accepting path that every honest existence answer takes (no conjunct beyond the specified ones); " +
 			"(R6) the single-target prover traversal and the verifier traversal are equal as decision tables under index:=version, the fast path is only taken when index==version; insertion computes the same hash shape. " +
 			"Method: decision-table comparison of loop-free traversal closures over canonical comparison atoms, provenance terms, dominating conditions.",
-		Added:       "Added after the second mutant round: (R11) provers record every cached hash they read outside an already recorded subtree; (R12) a shortcut leaf is made from leaves[0] only when the bulk list has one element, and the batch persisted is the one holding the new shortcut. Third round: (R12) the shortcut leaf is built from the key and value of the leaf it stands for, a pushed-down shortcut's slot is reset in the batch that is written; (R7) the leaf-list ordering convention (left = smaller key) is the same in InsertSorted, Split and every traversal.",
+		Added:       "Added after the second mutant round: (R11) provers record every cached hash they read outside an already recorded subtree; (R12) a shortcut leaf is made from leaves[0] only when the bulk list has one element, and the batch persisted is the one holding the new shortcut. Third round: (R12) the shortcut leaf is built from the key and value of the leaf it stands for, a pushed-down shortcut's slot is reset in the batch that is written; (R7) the leaf-list ordering convention (left = smaller key) is the same in InsertSorted, Split and every traversal. Fifth round: the cache rebuild consumes a reused read buffer up to the count read; the client's automatic verification pairs an answer with the stored snapshots of its own versions (finite order model).",
 		Assumptions: []string{"hash function is a function", "store returns what was written (C14)"},
 		Declined:    "the pruning arithmetic itself: agreement of the two-target prover traversal (index != version) with the verifier, hyper search/insert push-down and collision depths, 'keeps holding after any number of insertions' — these quantify over tree shapes and values; an off-by-one applied consistently to prover and verifier is C04's subject.",
 	}, runC01)
